@@ -91,11 +91,14 @@ func (w *simWriter) Write(p []byte) (int, error) {
 var msgPool = []string{
 	"plain", "two words", "quote\"inside", "new\nline", "tab\there", "ctl\x01\x7f", "bad\xff\xfeutf8", "",
 	"back\\slash", "uni sep é", "<html>&amp;", "key=value", " lead", "trail ", "{\"json\":1}",
+	"del\x7f", "\x7f", "nbsp ", "zero​width", "ls ps ", "emoji😀", "�", "bell\a", "esc\x1b[0m",
 }
+
+type ctxKey struct{}
 
 var hugeMsg = strings.Repeat("0123456789abcdef", 4500) // 72 000 bytes
 
-var keyPool = []string{"k", "key two", "a.b", "q\"k", "", "n\nk", "ü", "level", "msg", "time"}
+var keyPool = []string{"k", "key two", "a.b", "q\"k", "", "n\nk", "ü", "level", "msg", "time", "d\x7fk", "severity", "message"}
 
 var levels = []slog.Level{slog.LevelDebug, slog.LevelInfo, slog.LevelWarn, slog.LevelError, slog.Level(-8), slog.Level(2), slog.Level(5), slog.Level(7), slog.Level(9), slog.Level(12)}
 
@@ -290,9 +293,24 @@ func run(rc *kernel.RunCtx) {
 		attrs    []slog.Attr
 		want     string // predicted message (computed before the run)
 		name     string
+		ctx      context.Context
 	}
 	nTasks := tp.Range(1, 4)
 	plans := make([][]step, nTasks)
+	// The context a record is handled with must not matter ("Canceling the
+	// context should not affect record processing", slog.Handler): each task
+	// has its own live, cancelled, expired and value-carrying contexts,
+	// created before the run.
+	taskCtxs := make([][]context.Context, nTasks)
+	for ti := range taskCtxs {
+		cancelled, cancel := context.WithCancel(context.Background())
+		cancel()
+		expired, cancel2 := context.WithDeadline(context.Background(), time.Unix(1, 0))
+		defer cancel2()
+		live, cancel3 := context.WithCancel(context.WithValue(context.Background(), ctxKey{}, ti))
+		defer cancel3()
+		taskCtxs[ti] = []context.Context{ctx, cancelled, expired, live}
+	}
 	// Derivations made by the tasks during the run draw their attribute lists
 	// from a small pool, so that the same list is given to WithAttrs on the
 	// same parent more than once; some runs derive a lot.
@@ -350,6 +368,14 @@ func run(rc *kernel.RunCtx) {
 				r.AddAttrs(genAttr(tp, 0, ph))
 			}
 			st.rec = r
+			st.ctx = ctx
+			if tp.Bool(1, 4) {
+				c := 1 + tp.Choose(3)
+				st.ctx = taskCtxs[ti][c]
+				if c < 3 {
+					rc.Stats.Fault("context-already-done")
+				}
+			}
 			if st.node >= 0 {
 				st.want = predict(r, nodes[st.node].attrs)
 				st.name = nodes[st.node].name
@@ -376,7 +402,7 @@ func run(rc *kernel.RunCtx) {
 				if st.node >= 0 {
 					h = nodes[st.node].h
 				}
-				enabled := h.Enabled(ctx, st.rec.Level)
+				enabled := h.Enabled(st.ctx, st.rec.Level)
 				if enabled != (st.rec.Level >= cfgLevel) {
 					k.Report("enabled", "JSONHybridHandler.Enabled", fmt.Sprintf(
 						"handler %s (configured level %v): Enabled(%v) = %v", st.name, cfgLevel, st.rec.Level, enabled))
@@ -389,7 +415,7 @@ func run(rc *kernel.RunCtx) {
 				// Each Handle call gets its own record, as slog.Logger does.
 				rec := st.rec.Clone()
 				want := st.want
-				err, pv, stack := safeHandle(h, ctx, rec)
+				err, pv, stack := safeHandle(h, st.ctx, rec)
 				if pv == error(errWriterPanic) {
 					// The injected fault: no line for this record.
 					k.Tell("writer-panicked", func() { rc.Stats.Fault("writer-panicked") })
